@@ -298,6 +298,16 @@ class EvolveStateVector(torch.autograd.Function):
         grad_int_mat = None
         grad_state_in = None
 
+        if not torch.any(grad_state_out):
+            # Zero cotangent (to first order the loss does not depend on this state):
+            # every gradient vanishes, and Lanczos cannot start from the zero vector.
+            inputs = (omegas, deltas, phis, interaction_matrix, state)
+            grads = [
+                torch.zeros_like(t) if needed else None
+                for t, needed in zip(inputs, ctx.needs_input_grad[1:6])
+            ]
+            return (None, *grads, None, None)
+
         ham = EvolveStateVector.get_hamiltonian(
             omegas=omegas,
             deltas=deltas,
